@@ -460,7 +460,7 @@ fn opaque_names(facts: &Value, out: &mut BTreeSet<String>) {
 	}
 }
 
-const X_LIMIT: usize = 6000;
+const X_LIMIT: usize = 40000;
 
 fn exec_bytes(v: &Value) -> Result<Value> {
 	let id = v.get("id").and_then(Value::as_str).context("id")?;
